@@ -289,7 +289,7 @@ def validate(ctx, cases):
             lm = c["lemma"]
             all_lemmas.append(coqrun.Lemma(lm.name, lm.statement, lm.proof, lm.item))
     ctx.log(f"{len(all_lemmas)} lemmas ({sum(1 for c in cases if c['status'] == 'lemma')} semantic), {n_struct} structure-only")
-    res = coqrun.prove_lemmas(ctx, "c18", rc.PREAMBLE_TEX, all_lemmas, per_file=60, timeout=900)
+    res = rc.prove_all(ctx, "c18", rc.PREAMBLE_TEX, all_lemmas, per_file=60, timeout=900)
     ok = 0
     rng = random.Random(ctx.seed + 1)
     for c in cases:
@@ -310,6 +310,9 @@ def validate(ctx, cases):
             else:
                 rc.decide_failed(ctx, "C18", c, r2, rng)
     ctx.obligations(len(all_lemmas), ok)
+    first_ok = next((c["lemma"] for c in cases if c["status"] == "lemma" and res.get(c["lemma"].name) == "ok"), None)
+    if first_ok is not None:
+        rc.measure_axioms(ctx, rc.PREAMBLE_TEX, first_ok)
     cat = [c for c in cases if c["origin"] == "catalogue"]
     smp = [c for c in cases if c["origin"] == "sample"]
     ctx.evaluated(len(cases), len({c["s"] for c in cases if ("\\frac" in c["s"] or "\\left" in c["s"] or "^" in c["s"] or "-" in c["s"])}))
